@@ -30,6 +30,37 @@ Proof.
 Qed.
 Print Assumptions C02_companion_segmentation.
 
+(* ---- MRP and Companion with the layer above as a parameter: for every listener behaviour (returns
+   or raises, per message) what the listener is handed - including the message it raised on -
+   counter and buffer do not depend on the segmentation, and nothing leaves data_received. *)
+Theorem C02_mrp_consumer_segmentation : forall dec pb_ok consumer s chunks,
+  feeds (mrpc_p1 dec pb_ok consumer) s [] chunks = run (mrpc_p1 dec pb_ok consumer) s (concat chunks) /\
+  no_failure (run (mrpc_p1 dec pb_ok consumer) s (concat chunks)).
+Proof.
+  intros dec pb c s chunks.
+  assert (NF : no_failure (run (mrpc_p1 dec pb c) s (concat chunks))).
+  { intros ms e. apply drain_never_fails. apply (map_never_fails (mrp_p1 dec pb)). apply mrp_never_fails. }
+  split; [|exact NF].
+  exact (feed_chunks _ _ _ _ _ (map_stable _ _ _ (mrp_p1 dec pb) _ (mrp_stable dec pb))
+           (map_progress _ _ _ (mrp_p1 dec pb) _ (mrp_progress dec pb))
+           (map_failpfx _ _ _ (mrp_p1 dec pb) _ (mrp_failpfx dec pb)) chunks s [] eq_refl NF).
+Qed.
+Print Assumptions C02_mrp_consumer_segmentation.
+
+Theorem C02_companion_consumer_segmentation : forall dec known_type consumer s chunks,
+  feeds (compc_p1 dec known_type consumer) s [] chunks = run (compc_p1 dec known_type consumer) s (concat chunks) /\
+  no_failure (run (compc_p1 dec known_type consumer) s (concat chunks)).
+Proof.
+  intros dec kt c s chunks.
+  assert (NF : no_failure (run (compc_p1 dec kt c) s (concat chunks))).
+  { intros ms e. apply drain_never_fails. apply (map_never_fails (comp_p1 dec kt)). apply comp_never_fails. }
+  split; [|exact NF].
+  exact (feed_chunks _ _ _ _ _ (map_stable _ _ _ (comp_p1 dec kt) _ (comp_stable dec kt))
+           (map_progress _ _ _ (comp_p1 dec kt) _ (comp_progress dec kt))
+           (map_failpfx _ _ _ (comp_p1 dec kt) _ (comp_failpfx dec kt)) chunks s [] eq_refl NF).
+Qed.
+Print Assumptions C02_companion_consumer_segmentation.
+
 (* ---- HAP session (HAPSession.decrypt): if the stream read at once raises nothing (every block
    authentic), any segmentation yields the same plaintext pieces, counter and leftover bytes. *)
 Theorem C02_hap_session_segmentation : forall dec c chunks,
@@ -394,3 +425,9 @@ Example C02_ex_server_handler_raises :
   /\ httpd_feeds (fun _ => true) (fun _ => true) h [] (cut_at 0 [3; 14; 20]%nat (r 1 ++ r 2 ++ r 3)) =
     ([SReq (firstn 10 (r 1), [], []) A500; SReq (firstn 10 (r 2), [], []) A404; SReq (firstn 10 (r 3), [], []) AHandler], []).
 Proof. split; vm_compute; reflexivity. Qed.
+
+(* the listener raises on the first of three coalesced MRP messages: all three are handed over *)
+Example C02_ex_mrp_consumer_raises :
+  run (mrpc_p1 (fun _ d => Some d) (fun _ => true) (fun d => negb (bytes_beq d [7])) ) None [1; 7; 1; 8; 1; 9]
+  = Out [MHanded [7] false; MHanded [8] true; MHanded [9] true] None [].
+Proof. vm_compute. reflexivity. Qed.
